@@ -11,6 +11,11 @@ def classify(rec, verdict):
 
 
 def corrupt(rec, rng):
+    if rec["fn"] == "keyrel":
+        if rec["len"] != len(rec["other"]) and rng.random() < 0.3:
+            rec["eq"] = True
+            return rec
+        return None
     if rec["result"] == "err" and rec["kind"] == "local" and rec["len"] != 32:
         rec["ok"], rec["result"] = True, "ok"
         rec["post"] = {"reenc_equal": True, "reenc_idempotent": True, "text_roundtrip": True, "clone_equal": True, "enc_len": 32, "use_ok": True}
